@@ -11,6 +11,7 @@
 	     "getblk", "jbd2_journal_test_revoke"],
  "loop_contracts": true,
  "includes": ["e2fsck"],
+ "defines": ["VERIF_FIXED_BS=1024"],
  "unwindset": {"do_one_pass.0": 2},
  "unwind_reason": "do_one_pass.0 is not a loop but the backward `goto ignore_crc_mismatch` (chksum_error -> earlier label, which leaves through `goto done`): it can be taken at most once, the unwinding assertion checks that; both real loops are cut by loop contracts",
  "cbmc_flags": ["--no-signed-overflow-check", "--object-bits", "12"],
@@ -127,10 +128,16 @@ struct buffer_head *g_dirtied;		/* buffer mark_buffer_dirty was called on */
 #define GHOSTS g_live, g_jr_bh, g_jr_off, g_jr_byte, g_gb_bh, g_gb_dev, g_gb_blocknr, g_tr_blocknr, g_tr_seq, g_tr_ret, \
 	g_tv_buf, g_tv_tag3, g_tv_seq, g_tv_c0, g_tv_c1, g_tv_ret, g_tag_off0, g_prev_last, g_armed, g_dirtied
 
+static journal_t J;			/* the journal of the harness (getblk has no journal argument: buffers are j_blocksize = fs block size big) */
+
 #define UB(p) ((const unsigned char *)(p))
 #define J_INC(j) SPEC_BE32(&(j)->j_superblock->s_feature_incompat)
 #define J_CSUM23(j) (SPEC_HAS((j)->j_format_version, J_INC(j), SPEC_INCOMPAT_CSUM_V2) || SPEC_HAS((j)->j_format_version, J_INC(j), SPEC_INCOMPAT_CSUM_V3))
+#ifdef VERIF_FIXED_BS
+#define J_BS(j) ((unsigned long)VERIF_FIXED_BS)
+#else
 #define J_BS(j) ((unsigned long)(j)->j_blocksize)
+#endif
 #define BH_HDR (sizeof(struct buffer_head) - sizeof(((struct buffer_head *)0)->b_data))
 #define BH_SIZE(j) (BH_HDR + J_BS(j) + VERIF_BH_SLACK)
 #define SPEC_MAGIC 0xc03b3998u
@@ -189,7 +196,7 @@ struct buffer_head *getblk(kdev_t kdev, unsigned long long blocknr, int blocksiz
 	REQUIRES(g_pass == PASS_REPLAY)
 	ASSIGNS(g_gb_bh, g_gb_dev, g_gb_blocknr, g_live)
 	ENSURES(RET != 0 || g_live == OLD(g_live))
-	ENSURES(RET == 0 || (FRESH(RET, BH_HDR + (unsigned long)blocksize + VERIF_BH_SLACK) && RET->b_dirty == 0 && RET->b_blocknr == blocknr &&
+	ENSURES(RET == 0 || (FRESH(RET, BH_SIZE(&J)) && RET->b_dirty == 0 && RET->b_blocknr == blocknr &&
 			     g_gb_bh == RET && g_gb_dev == kdev && g_gb_blocknr == blocknr && g_live == OLD(g_live) + 1));
 
 int jbd2_journal_test_revoke(journal_t *journal, unsigned long long blocknr, tid_t sequence)
@@ -331,7 +338,6 @@ static int do_one_pass(journal_t *journal, struct recovery_info *info, enum pass
 	ENSURES(pass != PASS_SCAN || info->start_transaction == SPEC_BE32(&journal->j_superblock->s_sequence))
 	ENSURES(g_live == 0 && g_armed == 0);
 
-static journal_t J;
 static journal_superblock_t JSB;
 static struct kdev_s DEV_J, DEV_FS;
 static struct recovery_info INFO;
@@ -344,7 +350,11 @@ void h_one_pass(void)
 	ASSUME(IN.format_version == 1 || IN.format_version == 2);
 	ASSUME(IN.pass == PASS_SCAN || IN.pass == PASS_REVOKE || IN.pass == PASS_REPLAY);
 	J.j_superblock = &JSB;
+	#ifdef VERIF_FIXED_BS
+	J.j_blocksize = VERIF_FIXED_BS;
+#else
 	J.j_blocksize = 1024 << IN.bs_log;
+#endif
 	J.j_format_version = IN.format_version;
 	JSB.s_feature_incompat = ext2fs_cpu_to_be32(IN.incompat);
 	JSB.s_feature_compat = ext2fs_cpu_to_be32(IN.compat);
